@@ -55,6 +55,7 @@ var CMSMutationClasses = []string{
 	"sig_flip", "sig_by_other_key", "digestalg_change", "sigalg_change", "null_params_toggle",
 	"second_signer", "outer_strip", "outer_add", "attrs_retag_set", "attrs_remove_all", "attrs_empty",
 	"foreign_content_and_signer", "foreign_content_and_signer", "issuer_string_retag",
+	"content_malformed", "content_malformed",
 }
 
 // MutateCMS derives an adversarial blob from a parsable SignedData. It returns
@@ -200,6 +201,28 @@ func MutateCMS(t *rapid.T, blob []byte, env MutEnv) ([]byte, string) {
 		}
 		sd.EContent0.Children = []*der.Node{der.Octets(env.NewContent)}
 		sd.EContent0.Opaque, sd.EContent0.Content = false, nil
+	case "content_malformed":
+		// the signer info (and with it the signature over the attributes) stays as it is; what the [0] of the encapsulated
+		// content holds is no longer an element: cut inside its length octets, a length beyond what is there, an
+		// indefinite or oversized length, an unfinished high tag number, nothing at all, or the old element damaged
+		if sd.EContent0 == nil {
+			return nil, na
+		}
+		var raw []byte
+		if k := rapid.IntRange(0, 13).Draw(t, "malformed"); k < 12 {
+			raw = [][]byte{{0x30, 0x84, 0xaa, 0xbb, 0xcc}, {0x30, 0x82, 0x01}, {0x30, 0x81}, {0x30}, {0x04, 0x85, 1, 2, 3, 4}, {0x30, 0x80}, {0x30, 0x80, 0x00, 0x00},
+				{0x1f, 0x81}, {0x30, 0x05, 0x01}, {}, {0x30, 0x88, 0xff, 0xff, 0xff, 0xff, 0xff, 0xff, 0xff, 0xff}, {0x30, 0x84, 0x7f, 0xff, 0xff, 0xff, 0x00}}[k]
+		} else {
+			var old []byte
+			for _, ch := range sd.EContent0.Children {
+				old = append(old, ch.Encode()...)
+			}
+			if sd.EContent0.Children == nil {
+				old = append(old, sd.EContent0.Content...)
+			}
+			raw, _ = HostileDER(t, old)
+		}
+		sd.EContent0.Children, sd.EContent0.Opaque, sd.EContent0.Content = nil, true, append([]byte{}, raw...)
 	case "content_remove":
 		if sd.EContent0 == nil {
 			return nil, na
